@@ -234,6 +234,41 @@ def unit_C17(src):
     return u
 
 
+def as_model_U(u, name):
+    """turn a model-R unit into its advisory model-U twin: same functions, same contracts, scalar arithmetic uninterpreted,
+    no law lemmas, no hints (a function that needs either is decided by the model-R unit only)"""
+    u.name = name
+    u.model = 'U'
+    u.advisory = True
+    u.no_hints = True
+    u.lemma_texts = []
+    u.poly_texts = []
+    u.hint_packs = []
+    return u
+
+
+def unit_C17u(src):
+    """the same operator impls under model U: the scalar arithmetic is uninterpreted, so what verifies here holds for every scalar
+    type (floats with rounding, wrapping integers): the spellings compute the same value by the same operations.  Matrix x
+    vector / matrix x matrix (dimension 3, 4) and the quaternion product are left to model R: their spec functions are
+    written in another association than the code, which only real arithmetic identifies."""
+    u = unit_C17(src)
+    u.name = 'C17u'
+    u.model = 'U'
+    base = u.assume_pred
+
+    def needs_field(im, f):
+        if im is None or trait_name_of(im) != 'Mul':
+            return False
+        st = re.sub(r"^&\s*'[a-z]+\s+", '', im.selfty)
+        from emit import trait_args
+        ta = re.sub(r"^&\s*'[a-z]+\s+", '', trait_args(im.trait).strip())
+        if re.match(r'Matrix[34]<', st) and re.match(r'(Vector|Matrix)[34]<', ta):
+            return True
+        return st.startswith('Quaternion<') and ta.startswith('Quaternion<')
+    return as_model_U(u, 'C17u')
+
+
 def swizzle_words(letters, maxlen):
     import itertools
     return [''.join(w) for n in range(1, maxlen + 1) for w in itertools.product(letters, repeat=n)]
@@ -432,6 +467,8 @@ def unit_conv(src, prop, angle_kind='Rad'):
         add_laws(u, c_conv.laws_c05(F) if prop == 'C05' else c_conv.laws_c07(F))
         if prop == 'C07':
             u.lemma_texts.append(c_conv.handwritten_c07())
+        else:
+            u.lemma_texts.append(open(os.path.join(os.path.dirname(os.path.dirname(os.path.abspath(__file__))), 'contracts', 'handwritten', 'c05_laws.rs')).read())
     return u
 
 
@@ -472,6 +509,7 @@ def unit_C08(src, k):
     if k != 'q':
         u.lemma_texts.append(sym.HELPER_LEMMAS)
         add_laws(u, c_xform.laws(F, k))
+        u.lemma_texts.append(c_xform.handwritten_matrix_inverse(k))
     else:
         for L in c_quat.laws(F):
             if L.name in ('q_ring', 'q_inverse'):
@@ -519,6 +557,7 @@ def unit_C11(src):
     cs, cstext = c_metric.cs_laws(F)
     add_laws(u, cs)
     u.lemma_texts.append(cstext)
+    u.lemma_texts.append(open(os.path.join(os.path.dirname(os.path.dirname(os.path.abspath(__file__))), 'contracts', 'handwritten', 'c11_laws.rs')).read())
     return u
 
 
@@ -579,6 +618,16 @@ def unit_arc(src, prop):
     u.assume_pred = lambda im, f: not own(im, f)
     u.lemma_texts.append(sym.HELPER_LEMMAS)
     add_laws(u, c_arc.laws(F) if prop == 'C15' else c_arc.laws_c14(F))
+    hw = os.path.join(os.path.dirname(os.path.dirname(os.path.abspath(__file__))), 'contracts', 'handwritten')
+    if prop == 'C14':
+        u.lemma_texts.append(open(os.path.join(hw, 'c14_laws.rs')).read())
+        u.poly_texts.append(open(os.path.join(hw, 'c14_poly.rs')).read())
+    else:
+        for L in c_arc.laws_c14(F):
+            if L.name == 'q_normalize':
+                add_laws(u, [L])
+        u.lemma_texts.append(open(os.path.join(hw, 'c15_laws.rs')).read())
+        u.poly_texts.append(open(os.path.join(hw, 'c15_poly.rs')).read())
     return u
 
 
@@ -641,6 +690,12 @@ def unit_C09(src, k):
     if k == 'q':
         u.lemma_texts.append(sym.HELPER_LEMMAS)
         add_laws(u, c_look.laws(F))
+        for L in c_matrix.laws(F):
+            if L.name == 'm3_action':
+                u.lemma_texts.append(L.render_assumed('C01'))
+        hw = os.path.join(os.path.dirname(os.path.dirname(os.path.abspath(__file__))), 'contracts', 'handwritten')
+        u.lemma_texts.append(open(os.path.join(hw, 'c09_laws.rs')).read())
+        u.poly_texts.append(open(os.path.join(hw, 'c09_poly.rs')).read())
     return u
 
 
@@ -664,10 +719,10 @@ def Source_swz():
 
 
 def build_C03(src, tier):
-    return [unit_C03(src, 'R')]
+    return [unit_C03(src, 'R'), as_model_U(unit_C03(src, 'R'), 'C03u')]
 
 
-UNITS = {'C19': lambda src, tier: [unit_C19g(src)], 'C16': lambda src, tier: [unit_C16s(Source_swz())], 'C17': lambda src, tier: [unit_C17(src), unit_C17p(src)], 'C09': lambda src, tier: [unit_C09(src, 'q'), unit_C09(src, 'b3'), unit_C09(src, 'b2'), unit_C09i(src)], 'C15': lambda src, tier: [unit_arc(src, 'C15')], 'C14': lambda src, tier: [unit_arc(src, 'C14')], 'C18': lambda src, tier: [unit_C18(src)], 'C11': lambda src, tier: [unit_C11(src)], 'C10': lambda src, tier: [unit_C10(src, 'Rad'), unit_C10(src, 'Deg')], 'C08': lambda src, tier: [unit_C08(src, 'q'), unit_C08(src, 'b3'), unit_C08(src, 'b2'), unit_C08m(src, r'Point3<S>'), unit_C08m(src, r'Point2<S>')], 'C05': lambda src, tier: [unit_conv(src, 'C05', 'Rad')], 'C07': lambda src, tier: [unit_conv(src, 'C07', 'Rad'), unit_conv(src, 'C07', 'Deg')], 'C06': lambda src, tier: [unit_C06(src, 'Rad'), unit_C06(src, 'Deg')], 'C13': lambda src, tier: [unit_C13(src, 'R')], 'C04': lambda src, tier: [unit_C04(src, 'R')], 'C02': lambda src, tier: [unit_C02(src, 'R'), unit_C02t(src)], 'C01': lambda src, tier: [unit_C01(src, 'R'), unit_C01t(src, 'R')], 'C03': build_C03, 'C12': lambda src, tier: [unit_C12(src, 'R')]}
+UNITS = {'C19': lambda src, tier: [unit_C19g(src)], 'C16': lambda src, tier: [unit_C16s(Source_swz())], 'C17': lambda src, tier: [unit_C17(src), unit_C17p(src), unit_C17u(src)], 'C09': lambda src, tier: [unit_C09(src, 'q'), unit_C09(src, 'b3'), unit_C09(src, 'b2'), unit_C09i(src)], 'C15': lambda src, tier: [unit_arc(src, 'C15')], 'C14': lambda src, tier: [unit_arc(src, 'C14')], 'C18': lambda src, tier: [unit_C18(src)], 'C11': lambda src, tier: [unit_C11(src)], 'C10': lambda src, tier: [unit_C10(src, 'Rad'), unit_C10(src, 'Deg')], 'C08': lambda src, tier: [unit_C08(src, 'q'), unit_C08(src, 'b3'), unit_C08(src, 'b2'), unit_C08m(src, r'Point3<S>'), unit_C08m(src, r'Point2<S>')], 'C05': lambda src, tier: [unit_conv(src, 'C05', 'Rad')], 'C07': lambda src, tier: [unit_conv(src, 'C07', 'Rad'), unit_conv(src, 'C07', 'Deg')], 'C06': lambda src, tier: [unit_C06(src, 'Rad'), unit_C06(src, 'Deg')], 'C13': lambda src, tier: [unit_C13(src, 'R')], 'C04': lambda src, tier: [unit_C04(src, 'R')], 'C02': lambda src, tier: [unit_C02(src, 'R'), unit_C02t(src)], 'C01': lambda src, tier: [unit_C01(src, 'R'), unit_C01t(src, 'R'), as_model_U(unit_C01(src, 'R'), 'C01u')], 'C03': build_C03, 'C12': lambda src, tier: [unit_C12(src, 'R'), as_model_U(unit_C12(src, 'R'), 'C12u')]}
 import kani_driver
 KANI = kani_driver.GROUPS
 from meta import META
